@@ -1,0 +1,22 @@
+//go:build verif
+
+package log
+
+// Verification helpers for property C20 (build tag "verif" only).
+
+// VerifTraceEntries returns the entries a context tracer attached to a submitted line, in collection
+// order (the main line itself is not included), and whether the line was submitted by a tracer at all.
+func VerifTraceEntries(m Message) ([]Message, bool) {
+	ll, ok := m.(*logLine)
+	if !ok || ll.tracer == nil {
+		return nil, false
+	}
+	out := make([]Message, 0, len(ll.tracer.logs))
+	for _, e := range ll.tracer.logs {
+		out = append(out, e)
+	}
+	return out, true
+}
+
+// VerifBufferCap returns the capacity of the log buffer (0 before Start).
+func VerifBufferCap() int { return cap(logBuffer) }
